@@ -1469,7 +1469,7 @@ func c11RunConcOnce(c c11ConcCase, rep int) (res verifkit.Result, labels map[str
 	// the model (the property does not promise that a login is accepted), then the
 	// property clauses are checked (c11Diff).
 	var first *verifkit.Violation
-	ghosts := 0
+	ghosts, matched := 0, false
 	found := c11Permute(len(ops), func(order []int) bool {
 		mm := m.clone()
 		for _, oi := range order {
@@ -1490,11 +1490,12 @@ func c11RunConcOnce(c c11ConcCase, rep int) (res verifkit.Result, labels map[str
 		if v != nil && first == nil {
 			first = v
 		}
-		if v == nil {
-			ghosts = g
+		if v == nil && (!matched || g < ghosts) {
+			matched, ghosts = true, g
 		}
-		return v == nil
+		return v == nil && g == 0 // keep looking for an order that explains every entry
 	})
+	found = found || matched
 	if found {
 		if ghosts > 0 {
 			// e.g. a player disconnected between the Active() check and
